@@ -19,7 +19,7 @@ Lemma calc_unfold t1 v1 t2 v2 :
                 else if (ms <? 100) && (15000 <? 4294967295 - d) then false else true
            else negb (d <? 5)) then None
   else
-    let raw := if 4294967295 - d <? d then {| qn := (4294967295 - d) * 1000; qd := Z.max ms 1 |}
+    let raw := if 4294967295 - d <? d then {| qn := - ((4294967295 - d) * 1000); qd := Z.max ms 1 |}
                else {| qn := d * 1000; qd := Z.max ms 1 |} in
     if (1 * qd raw <=? qn raw * 1) && (qn raw * 1 <=? 1500 * qd raw) then Some raw else None.
 Proof. reflexivity. Qed.
@@ -59,32 +59,22 @@ Proof.
 Qed.
 
 Lemma calc_out_of_bounds t1 v1 t2 v2 :
-  in_bounds t1 v1 t2 v2 = false -> known_backward t1 v1 t2 v2 = false ->
+  in_bounds t1 v1 t2 v2 = false ->
   calculate_frequency_p0f_style (ts_now v2 t2) (ts_now v1 t1) = None.
 Proof.
-  intros Hb Hk. rewrite calc_unfold. unfold in_bounds in Hb. unfold known_backward in Hk. cbv zeta.
+  intros Hb. rewrite calc_unfold. unfold in_bounds in Hb. cbv zeta.
   pose proof (advance_range v1 v2) as Hr.
-  set (d := advance v1 v2) in *. set (ms := t2 - t1) in *. unfold TWO31, TWO32 in *.
+  set (d := advance v1 v2) in *. set (ms := t2 - t1) in *. unfold TWO31 in *.
   destruct (Z.ltb_spec (Z.max 0 ms) 25); [reflexivity|].
   destruct (Z.ltb_spec 600000 (Z.max 0 ms)); [reflexivity|].
   rewrite (Z.max_r 0 ms) in * by lia. rewrite (Z.max_l ms 1) by lia.
-  destruct (Z.leb_spec 25 ms); [|lia]. destruct (Z.leb_spec ms 600000); [|lia]. cbn [andb] in Hb, Hk.
-  destruct (Z.ltb_spec (4294967295 - d) d) as [Hbk|Hfw].
-  - (* backward *)
-    destruct (Z.leb_spec 2147483648 d); [|lia]. cbn [andb] in Hk.
-    replace (4294967296 - 1 - d) with (4294967295 - d) in Hk by lia.
-    destruct (Z.ltb_spec (4294967295 - d) 5); [reflexivity|].
-    destruct (Z.leb_spec 5 (4294967295 - d)); [|lia]. cbn [andb] in Hk.
-    destruct (Z.ltb_spec ms 100); destruct (Z.leb_spec 100 ms); try lia;
-      destruct (Z.ltb_spec 15000 (4294967295 - d)); destruct (Z.leb_spec (4294967295 - d) 15000); try lia;
-      cbn [andb orb negb qn qd] in *; try reflexivity;
-      destruct (Z.leb_spec ms (1000 * (4294967295 - d))); destruct (Z.leb_spec (1 * ms) ((4294967295 - d) * 1000 * 1)); try lia;
-      cbn [andb] in *; try reflexivity;
-      destruct (Z.leb_spec (1000 * (4294967295 - d)) (1500 * ms)); destruct (Z.leb_spec ((4294967295 - d) * 1000 * 1) (1500 * ms)); try lia;
-      try reflexivity; discriminate.
+  destruct (Z.leb_spec 25 ms); [|lia]. destruct (Z.leb_spec ms 600000); [|lia]. cbn [andb] in Hb.
+  destruct (negb _); [reflexivity|].
+  destruct (Z.ltb_spec (4294967295 - d) d) as [Hbk|Hfw]; cbn [qn qd].
+  - (* backward: the rate is negative *)
+    destruct (Z.leb_spec (1 * ms) (- ((4294967295 - d) * 1000) * 1)); [lia | reflexivity].
   - (* forward *)
     destruct (Z.ltb_spec d 2147483648); [|lia]. cbn [andb] in Hb.
-    destruct (Z.ltb_spec d 5); [reflexivity|]. cbn [negb qn qd].
     destruct (Z.leb_spec ms (1000 * d)); destruct (Z.leb_spec (1 * ms) (d * 1000 * 1)); try lia; cbn [andb] in *; try reflexivity.
     destruct (Z.leb_spec (1000 * d) (1500 * ms)); destruct (Z.leb_spec (d * 1000 * 1) (1500 * ms)); try lia; try reflexivity; discriminate.
 Qed.
@@ -163,7 +153,7 @@ Theorem estimate_model_spec t1 v1 t2 v2 :
   model_estimate t1 v1 t2 v2 = spec_estimate t1 v1 t2 v2.
 Proof.
   intros [Ht1 Hv1] [Ht2 Hv2] Hk. unfold known_pair in Hk.
-  apply orb_false_elim in Hk. destruct Hk as [Hsm Hbw].
+  rename Hk into Hsm.
   unfold model_estimate, spec_estimate.
   destruct (in_bounds t1 v1 t2 v2) eqn:Hb.
   - unfold known_small_advance in Hsm. rewrite Hb in Hsm. cbn [andb] in Hsm. apply Z.ltb_ge in Hsm.
@@ -187,10 +177,7 @@ Theorem estimate_sound t1 v1 t2 v2 :
   u_mod_days u = 4294967296 / freq / 86400.
 Proof.
   intros W1 W2 Hb Hsm freq u.
-  assert (Hkb : known_backward t1 v1 t2 v2 = false).
-  { pose proof (in_bounds_facts _ _ _ _ Hb) as (_ & Hfw & _). unfold known_backward, TWO31.
-    destruct (Z.leb_spec 2147483648 (advance v1 v2)); [lia|]. now rewrite !andb_false_r. }
-  assert (Hk : known_pair t1 v1 t2 v2 = false) by (unfold known_pair; now rewrite Hsm, Hkb).
+  assert (Hk : known_pair t1 v1 t2 v2 = false) by (unfold known_pair; exact Hsm).
   pose proof (in_bounds_facts _ _ _ _ Hb) as (Hms & Hfw & Hrate).
   assert (Hf : 1 <= freq) by (apply grid_pos; lia).
   split. { rewrite estimate_model_spec by assumption. unfold spec_estimate. now rewrite Hb. }
@@ -200,10 +187,10 @@ Proof.
 Qed.
 
 Theorem estimate_withheld t1 v1 t2 v2 :
-  in_bounds t1 v1 t2 v2 = false -> known_backward t1 v1 t2 v2 = false ->
+  in_bounds t1 v1 t2 v2 = false ->
   model_estimate t1 v1 t2 v2 = None /\ spec_estimate t1 v1 t2 v2 = None.
 Proof.
-  intros Hb Hk. unfold model_estimate, spec_estimate.
+  intros Hb. unfold model_estimate, spec_estimate.
   rewrite calc_out_of_bounds by assumption. now rewrite Hb.
 Qed.
 
@@ -214,10 +201,13 @@ Lemma Known_small_advance_refuted :
                       model_estimate t1 v1 t2 v2 <> spec_estimate t1 v1 t2 v2.
 Proof. exists 0, 1000, 1000, 1004. unfold wf_obs. repeat split; try lia. vm_compute. discriminate. Qed.
 
-Lemma Known_backward_refuted :
-  exists t1 v1 t2 v2, wf_obs t1 v1 /\ wf_obs t2 v2 /\ known_backward t1 v1 t2 v2 = true /\
-                      model_estimate t1 v1 t2 v2 <> spec_estimate t1 v1 t2 v2.
-Proof. exists 0, 1000, 1000, 900. unfold wf_obs. repeat split; try lia. vm_compute. discriminate. Qed.
+(* former known class "backward movement reported" (repaired in /repo): the old witnesses now agree *)
+Lemma Known_backward_former_witness_agrees :
+  model_estimate 0 1000 1000 900 = spec_estimate 0 1000 1000 900 /\
+  model_estimate 0 5000000 60000 4940000 = spec_estimate 0 5000000 60000 4940000 /\
+  model_estimate 0 1000 50 985 = spec_estimate 0 1000 50 985 /\
+  spec_estimate 0 1000 1000 900 = None.
+Proof. vm_compute. auto. Qed.
 
 (* hypotheses of the pair theorems are satisfiable on non-trivial inputs *)
 Example estimate_sound_ex :
@@ -225,5 +215,6 @@ Example estimate_sound_ex :
   model_estimate 1000 4294967000 31000 7204 = Some {| u_freq := 250; u_days := 0; u_hours := 0; u_min := 0; u_mod_days := 198 |}.
 Proof. vm_compute. auto. Qed.
 Example estimate_withheld_ex :
-  in_bounds 0 5000 24 5024 = false /\ known_backward 0 5000 24 5024 = false /\ model_estimate 0 5000 24 5024 = None.
+  in_bounds 0 5000 24 5024 = false /\ in_bounds 0 1000 1000 900 = false /\
+  model_estimate 0 5000 24 5024 = None /\ model_estimate 0 1000 1000 900 = None.
 Proof. vm_compute. auto. Qed.
